@@ -526,6 +526,14 @@ def do_extract(u, spec, subs, tline):
         d = sd['d']
         if d.startswith('t4 '):
             args = d.split()[1:]
+            if args[0] == 'bind_call':
+                # t4 bind_call <callee> <lemma> [deref]
+                text, n = t4mod.bind_call(text, args[1], args[2], len(args) > 3 and args[3] == 'deref')
+                if n == 0:
+                    raise Undecided('T4 bind_call: no call of %s' % args[1])
+                fn_counts['T4'] = fn_counts.get('T4', 0) + n
+                u.rewrites.append({'fn': ' :: '.join(path), 'file': relpath, 'kind': 'T4', 'what': 'bind_call: %d call(s) of closure `%s` let-bound with ghost lemma %s' % (n, args[1], args[2])})
+                continue
             if len(args) > 1 and args[1] == '*':
                 # every site of this kind (zero or more)
                 while t4mod.count_sites(text, args[0]) > 0:
@@ -569,6 +577,11 @@ def do_extract(u, spec, subs, tline):
             text, bo2 = name_return(text, m2, bo2, ret)
             m2 = rs.mask(text)
             bo2 = sig_end(text, m2)
+        else:
+            # trait method declaration: name the return value in front of the final ';'
+            semi = text.rstrip().rfind(';')
+            text, _ = name_return(text, m2, semi, opts.get('ret', 'r'))
+            m2 = rs.mask(text)
         # splices: gather (position, text) then apply from the end
         splices = []
         for sd in subs:
